@@ -64,6 +64,11 @@ STRENGTHENED = {
     "C12-11": "missed at first; the tools are now also run under a short write followed by an error on the next write (second fault through ZH_FAULT2)",
     "C12-12": "missed at first; a copy scenario whose target wants the same source chunk three times was added",
     "C17-10": "missed at first; error / zck_clear_error steps inside sessions were added",
+    "C03-14": "missed at first; header mutants whose optional-element size wraps the cursor back onto the element, with an element count that never runs out, were added (and a per-case watchdog in the header harness)",
+    "C05-14": "missed at first; the spelling of the Content-Type header line name (case, blanks) is now varied",
+    "C05-15": "missed at first; part headers of 600 and 1500 bytes with cuts before and after byte 512 / 1024 were added",
+    "C06-14": "missed at first; the substitution sweep is now also run with type, digest AND header length pinned",
+    "C17-14": "missed at first; header lines arriving after body callbacks of the same transfer (a second boundary, the same one, an unrelated line) were added, modelled and compared",
     "C01-3": "caught as HANG; the per-case watchdog was shortened so that the check stays fast",
 }
 
@@ -87,13 +92,13 @@ def main():
            "build, `meson test` green, demonstration fails; reverted, demonstration passes) and is kept under `seeded/<id>-<n>/` (patch.diff, demo, meta.json with the",
            "recorded verdicts). `tools/seedtest.py <dir>` applies a change to `/repo`, runs the quick check of its property and undoes it. 'oracle (failing input)' means",
            "the check printed a VIOLATION with a concrete replay; 'correspondence' / 'proof obligation' mean a VIOLATION … no-failing-input-found.", "",
-           "Four rounds of twenty seeders (three changes per property and round, the second round run in two halves; later rounds were told only in general terms what had been done before and",
+           "Four rounds of twenty seeders (three changes per property and round, the second round run in two halves) and a short last round for the ten properties with the most misses; later rounds were told only in general terms what had been done before and",
            "were steered towards call sequences, option combinations, tools and error paths). %d changes in all. About one change in five slipped through the quick" % len(rows),
            "check of its property at first (%d, plus %d caught only as a model/code disagreement); each miss was turned into a generator, oracle or model" % (sum('missed at first' in v for v in STRENGTHENED.values()), sum('first caught only' in v for v in STRENGTHENED.values())),
            "extension (column 'note'), three of them into new theorems (C07 pin stickiness, C05/C17 sessions, C02 request API), and two side remarks of seeders",
            "about the UNCHANGED tree turned out to be genuine defects (dd3b01f, fc042ff). A handful are outside what the named property's check explores and are",
            "caught by the check of the property they really break (noted). `tools/seedcorpus.py` re-runs the whole corpus in parallel scratch worktrees; the",
-           "last full run after the final changes is recorded in each meta.json under `rerun`.", "",
+           "last full run (240 of 240 caught, before the last round was added) is recorded in each meta.json under `rerun`.", "",
            "| seed | change | verdict of the quick check | note |", "|---|---|---|---|"] + rows + [""]
     p = os.path.join(VERIF, "DESIGN.md")
     s = open(p).read()
